@@ -173,6 +173,20 @@ func (in *inliner) host(info *types.Info, pkg *types.Package, host *ast.FuncDecl
 						}
 					}
 				}
+			case *ast.IfStmt:
+				// P: `if err := f(args); err != nil { panic(err) }` -- a checker that reports by error value, turned into a
+				// failure at the one place it is called: the body with `return <error>` read as `panic(<error>)`
+				if call := panicOnErr(info, x); call != nil {
+					if fd, o := callee(call); fd != nil {
+						if blk := in.expandPanicking(info, call, fd); blk != nil {
+							usedHere[o] = true
+							in.p.inlRanges = append(in.p.inlRanges, inlRange{fd.Body.Pos(), fd.Body.End(), host.Pos(), host.End()})
+							out = append(out, blk...)
+							in.done++
+							continue
+						}
+					}
+				}
 			case *ast.ExprStmt:
 				if call, ok := unparen(x.X).(*ast.CallExpr); ok {
 					if fd, o := callee(call); fd != nil && (fd.Type.Results == nil || in.pureReturns(info, fd)) {
@@ -985,4 +999,135 @@ func (in *inliner) pureReturns(info *types.Info, fd *ast.FuncDecl) bool {
 		}
 	}
 	return true
+}
+
+
+// panicOnErr recognises `if e := f(args); e != nil { panic(e) }` and returns the call.
+func panicOnErr(info *types.Info, is *ast.IfStmt) *ast.CallExpr {
+	as, ok := is.Init.(*ast.AssignStmt)
+	if !ok || is.Else != nil || len(as.Lhs) != 1 || len(as.Rhs) != 1 || len(is.Body.List) != 1 {
+		return nil
+	}
+	id, ok := as.Lhs[0].(*ast.Ident)
+	if !ok {
+		return nil
+	}
+	o := info.Defs[id]
+	if o == nil {
+		o = info.Uses[id]
+	}
+	call, ok := unparen(as.Rhs[0]).(*ast.CallExpr)
+	if !ok || o == nil {
+		return nil
+	}
+	be, ok := unparen(is.Cond).(*ast.BinaryExpr)
+	if !ok || be.Op != token.NEQ {
+		return nil
+	}
+	xi, ok1 := unparen(be.X).(*ast.Ident)
+	yi, ok2 := unparen(be.Y).(*ast.Ident)
+	if !ok1 || !ok2 || info.Uses[xi] != o || yi.Name != "nil" {
+		return nil
+	}
+	es, ok := is.Body.List[0].(*ast.ExprStmt)
+	if !ok {
+		return nil
+	}
+	pc, ok := es.X.(*ast.CallExpr)
+	if !ok || len(pc.Args) != 1 {
+		return nil
+	}
+	pf, ok := pc.Fun.(*ast.Ident)
+	if !ok || pf.Name != "panic" || info.Uses[pf] != types.Universe.Lookup("panic") {
+		return nil
+	}
+	ai, ok := unparen(pc.Args[0]).(*ast.Ident)
+	if !ok || info.Uses[ai] != o {
+		return nil
+	}
+	return call
+}
+
+// expandPanicking copies the body of an error-returning checker (single result; every return is `return nil` or returns a
+// freshly made error: fmt.Errorf / errors.New) with `return <error>` replaced by `panic(<error>)` and `return nil` by a bare
+// return, which the guard-clause nesting then removes.
+func (in *inliner) expandPanicking(info *types.Info, call *ast.CallExpr, fd *ast.FuncDecl) []ast.Stmt {
+	if len(namedResults(fd, info)) > 0 || fd.Type.Results == nil || len(fd.Type.Results.List) != 1 {
+		return nil
+	}
+	if tv, ok := info.Types[fd.Type.Results.List[0].Type]; !ok || tv.Type.String() != "error" {
+		return nil
+	}
+	for _, r := range returnsIn(fd.Body) {
+		if len(r.Results) != 1 {
+			return nil
+		}
+		if id, ok := unparen(r.Results[0]).(*ast.Ident); ok && id.Name == "nil" {
+			continue
+		}
+		ce, ok := unparen(r.Results[0]).(*ast.CallExpr)
+		if !ok {
+			return nil
+		}
+		if fn, ok := staticCallee(info, ce).(*types.Func); !ok || fn.Pkg() == nil || !(fn.Pkg().Path() == "fmt" && fn.Name() == "Errorf" || fn.Pkg().Path() == "errors" && fn.Name() == "New") {
+			return nil
+		}
+	}
+	subst, binds, fresh, ok := in.bindings(info, call, fd)
+	if !ok {
+		return nil
+	}
+	cl := &cloner{info: info, subst: subst, fresh: fresh, lo: fd.Pos(), hi: fd.End()}
+	var copied []ast.Stmt
+	for _, st := range fd.Body.List {
+		copied = append(copied, cl.node(reflect.ValueOf(st)).Interface().(ast.Stmt))
+	}
+	var rewrite func(list []ast.Stmt) []ast.Stmt
+	rewrite = func(list []ast.Stmt) []ast.Stmt {
+		out := make([]ast.Stmt, 0, len(list))
+		for _, st := range list {
+			switch x := st.(type) {
+			case *ast.ReturnStmt:
+				if id, ok := unparen(x.Results[0]).(*ast.Ident); ok && id.Name == "nil" {
+					out = append(out, &ast.ReturnStmt{Return: x.Return})
+					continue
+				}
+				pf := &ast.Ident{NamePos: x.Pos(), Name: "panic"}
+				info.Uses[pf] = types.Universe.Lookup("panic")
+				pc := &ast.CallExpr{Fun: pf, Lparen: x.Pos(), Args: []ast.Expr{x.Results[0]}, Rparen: x.End()}
+				info.Types[pc] = types.TypeAndValue{Type: types.NewTuple()}
+				out = append(out, &ast.ExprStmt{X: pc})
+				continue
+			case *ast.BlockStmt:
+				x.List = rewrite(x.List)
+			case *ast.IfStmt:
+				x.Body.List = rewrite(x.Body.List)
+				switch e := x.Else.(type) {
+				case *ast.BlockStmt:
+					e.List = rewrite(e.List)
+				case *ast.IfStmt:
+					x.Else = rewrite([]ast.Stmt{e})[0]
+				}
+			case *ast.SwitchStmt:
+				for _, cc := range x.Body.List {
+					cc.(*ast.CaseClause).Body = rewrite(cc.(*ast.CaseClause).Body)
+				}
+			case *ast.TypeSwitchStmt:
+				for _, cc := range x.Body.List {
+					cc.(*ast.CaseClause).Body = rewrite(cc.(*ast.CaseClause).Body)
+				}
+			case *ast.ForStmt, *ast.RangeStmt:
+				if len(returnsIn(st)) > 0 {
+					return nil
+				}
+			}
+			out = append(out, st)
+		}
+		return out
+	}
+	copied = rewrite(copied)
+	if copied == nil || !guardOnly(copied) {
+		return nil
+	}
+	return append(append([]ast.Stmt{}, binds...), nestGuards(copied)...)
 }
